@@ -196,6 +196,7 @@ class LocalFn:
         return run_function(self.fdef, ([self.bound] if self.bound is not None else []) + list(args), kwargs, env=self.scope, budget=20000)
 PURE_METHODS = {
     str: {'join', 'upper', 'lower', 'index', 'find', 'count', 'startswith', 'endswith', 'replace', 'strip', 'split', 'translate', 'format', 'zfill'},
+    collections.Counter: {'most_common', 'elements', 'total'},
     dict: {'get', 'keys', 'values', 'items', 'copy'},
     list: {'index', 'count', 'copy'},
     tuple: {'index', 'count'},
@@ -541,7 +542,7 @@ class Evaluator:
                 return run_function(kf.fdef, ([kf.bound] if kf.bound is not None else []) + [x], env=kf.scope, budget=max(0, self.budget), call_hook=self.call_hook)
             kwargs = dict(kwargs, key=keyfn)
         if d in PURE_FUNCS:
-            if d.split('.')[-1] in ('defaultdict', 'reduce') and any(isinstance(a, ast.Lambda) for a in args):
+            if any(isinstance(a, ast.Lambda) for a in list(args) + list(kwargs.values())):
                 def mk(lam):
                     def call(*xs):
                         env2 = dict(env)
@@ -550,6 +551,7 @@ class Evaluator:
                         return self.ev(lam.body, env2)
                     return call
                 args = [mk(a) if isinstance(a, ast.Lambda) else a for a in args]
+                kwargs = {k_: (mk(v_) if isinstance(v_, ast.Lambda) else v_) for k_, v_ in kwargs.items()}
             try:
                 r = PURE_FUNCS[d](*args, **kwargs)
                 if isinstance(r, (range, zip, enumerate, reversed, itertools.product, itertools.combinations, itertools.permutations, itertools.chain, itertools.combinations_with_replacement)):
